@@ -178,27 +178,29 @@ def run(ctx) -> None:
             ok = bool(qs) and all(q.kind == "return" and q.value_text() == f"f'{{{pa}.node.idx}}:{{{pfx}}}{{{pa}.offset}}'" for q in qs)
         ctx.check(ok, "C20.R3", f"{name}", m.path, fn.lineno if fn else 1,
                   "edge endpoints name <node index>:<prefix><offset>, the id of the port's cell", fn, found=u(real_body(fn)[-1]) if fn else "")
-    # ---- R3
+    # ---- R3: stated on `render` with the edge helper seen through (which of the two looks the port kind up is free): every link of
+    #      hugr.links() gets exactly one edge statement from the source's port cell to the target's, styled by the kind of the source port
     ok = bool(rps)
     after = bool(rps)
     for p in rps:
-        loops = [e for e in p.effects if isinstance(e, ast.For) and u(e.iter) == f"{hp_}.links()"]
-        if len(loops) != 1 or not isinstance(loops[0].target, ast.Tuple) or len(loops[0].target.elts) != 2:
-            ok = False
-            continue
-        lp = loops[0]
-        sv, tv = u(lp.target.elts[0]), u(lp.target.elts[1])
-        bps = summaries(lp.body)
-        ok = ok and bool(bps) and all(q.kind == "fall" and not q.tests for q in bps)
-        for q in bps:
-            calls = prim(q, lambda c: call_name(c) == "_viz_link")
-            ok = ok and len(calls) == 1 and [u(a) for a in calls[0].value.args[:3]] == [sv, tv, f"{hp_}.port_kind({sv})"] and len(calls[0].value.args) == 4
+        loops = [e for e in p.effects if isinstance(e, ast.For) and unold(e.iter) == f"{hp_}.links()"]
         roots = [i for i, e in enumerate(p.effects) if isinstance(e, ast.Expr) and isinstance(e.value, ast.Call) and call_name(e.value) == "_viz_node"]
-        after = after and bool(roots) and p.effects.index(lp) > roots[0]
-    ctx.check(ok, "C20.R3", "render: one _viz_link per link", m.path, render.lineno, "every link of hugr.links() is drawn, with the kind of its source port", render)
+        ok = ok and len(loops) == 1
+        after = after and bool(roots) and len(loops) == 1 and p.effects.index(loops[0]) > roots[0]
+    rcf = ctx.cfn(f"{DQ}.render", inline=("_viz_link",), subst=False)
+    lloops = [n for n in rcf.body if isinstance(n, ast.For) and u(n.iter) == f"{hp_}.links()" and isinstance(n.target, ast.Tuple) and len(n.target.elts) == 2]
+    gdefs = [s_.targets[0].id for s_ in rcf.body if isinstance(s_, ast.Assign) and isinstance(s_.targets[0], ast.Name) and isinstance(s_.value, ast.Call)
+             and u(s_.value.func).endswith("Digraph")]
+    if len(lloops) != 1 or len(gdefs) != 1:
+        ok = False
+        lps, sv, tv, K, gv_ = [], "?", "?", "?", "?"
+    else:
+        lp = lloops[0]
+        sv, tv = u(lp.target.elts[0]), u(lp.target.elts[1])
+        K, gv_ = f"{hp_}.port_kind({sv})", gdefs[0]
+        lps = [q for q in summaries(lp.body) if q.kind != "raise"]
+    ctx.check(ok and bool(lps), "C20.R3", "render: one _viz_link per link", m.path, render.lineno, "every link of hugr.links() is drawn, with the kind of its source port", render)
     ctx.check(after, "C20.R3", "render: nodes before links", m.path, render.lineno, "", render)
-    lpar = [a.arg for a in vl.args.args[1:5]]       # src_port, tgt_port, kind, graph
-    lps = [p for p in ctx.paths(f"{DQ}._viz_link") if p.kind != "raise"]
     ok = bool(lps)
     handled = set()
     ok_val = False
@@ -207,19 +209,19 @@ def run(ctx) -> None:
         edges = prim(p, lambda c: call_name(c) == "edge")
         # graphviz: Digraph.edge(tail_name, head_name, label=None, **attrs)
         ends = [kwarg(edges[0].value, "tail_name", 0), kwarg(edges[0].value, "head_name", 1)] if len(edges) == 1 else []
-        good = len(edges) == 1 and all(e_ is not None for e_ in ends) and [u(a) for a in ends] == [f"self._out_port_name({lpar[0]})", f"self._in_port_name({lpar[1]})"] \
-            and kwarg(edges[0].value, "label", 2) is not None and u(edges[0].value.func.value) == lpar[3]
+        good = len(edges) == 1 and all(e_ is not None for e_ in ends) and [u(a) for a in ends] == [f"self._out_port_name({sv})", f"self._in_port_name({tv})"] \
+            and kwarg(edges[0].value, "label", 2) is not None and u(edges[0].value.func.value) == gv_
         ok = ok and good
-        kinds = [t for t, k in p.tests if k and isinstance(t, ast.Call) and u(t.func) == "isinstance" and u(t.args[0]) == lpar[2]]
+        kinds = [t for t, k in p.tests if k and isinstance(t, ast.Call) and u(t.func) == "isinstance" and unold(t.args[0]) == K]
         never = any(isinstance(e, ast.Expr) and isinstance(e.value, ast.Call) and u(e.value.func) == "assert_never" for e in p.effects)
         if kinds:
             from ..paths import _isinstance_parts
             handled |= {x.split(".")[-1] for x in _isinstance_parts(kinds[-1])[1]}
             if "ValueKind" in u(kinds[-1].args[1]) and good:
-                ok_val = u(kwarg(edges[0].value, "label", 2)) in (f"str({lpar[2]}.ty)", f"f'{{{lpar[2]}.ty}}'")
+                ok_val = unold(kwarg(edges[0].value, "label", 2)) in (f"str({K}.ty)", f"f'{{{K}.ty}}'")
         elif not never:
             no_exit = False
-        if p.kind != "fall":
+        if p.kind not in ("fall", "continue"):
             no_exit = False
     ctx.check(ok, "C20.R3", "_viz_link: exactly one edge statement from out-port to in-port", m.path, vl.lineno,
               "every kind must fall through to the single graph.edge(<source port name>, <target port name>, label=...)", vl)
